@@ -145,6 +145,16 @@ class BuiltinMixin:
       return v.seq if isinstance(v, VMList) else v
     raise Unsupported(f'tuple({type(v).__name__})')
 
+  def bi_callable(self, it, a, k):
+    v = self.unopt(a[0])
+    if isinstance(v, (VFn, VClass, VPartial)):
+      return VBool(True)
+    if isinstance(v, VOpaque):
+      return VBool(callable_fn(v.t))
+    if isinstance(v, VObj):
+      return VBool(self.world.method(v.cls, '__call__')[2] is not None)
+    return VBool(False)
+
   def bi_dict(self, it, a, k):
     if not a:
       return VDict(dict(k))
@@ -411,6 +421,7 @@ class BuiltinMixin:
 
 
 _SLICE_OF = z3.Function('slice_of', Obj, z3.IntSort(), z3.IntSort(), Obj)
+callable_fn = z3.Function('is_callable', Obj, z3.BoolSort())     # ghost: an opaque object can be called
 nparts_fn = z3.Function('nparts', Obj, z3.IntSort())            # ghost: number of iterators chained into an opaque iterator
 part_fn = z3.Function('part_of', Obj, z3.IntSort(), Obj)        # ghost: its j-th part
 
